@@ -51,7 +51,7 @@ func c11paths() []c11path {
 		}
 	}
 	causes1 := []string{"none", "disconnect", "drop", "silence", "second-connect", "displaced-same-node", "subscribe-and-drop", "connect-answer-lost"}
-	causes2 := append(append([]string{}, causes1...), "displaced-other-node", "leave", "displaced-other-node-unaware")
+	causes2 := append(append([]string{}, causes1...), "displaced-other-node", "leave", "displaced-other-node-unaware", "leave-and-rejoin-notice")
 	// keep-alive values at the edges of the 16-bit field: only short absolute idles (1 s, 3.5 s), pings and subscriptions
 	for _, k := range []int32{32767, 32768, 32769, 65535} {
 		for _, s := range scripts {
@@ -268,7 +268,7 @@ func TestC11Lifecycle(t *testing.T) {
 				lateSessionKept := false
 				lateSubKept := map[string]bool{}
 				kfLate := func(key string) string {
-					if p.Cause == "leave" && lateFromDead[key] {
+					if strings.HasPrefix(p.Cause, "leave") && lateFromDead[key] {
 						return "C11-late-gossip-from-failed-node"
 					}
 					return ""
@@ -358,7 +358,7 @@ func TestC11Lifecycle(t *testing.T) {
 						viol("c11-displaced-session-still-served", "the displaced session's PINGREQ was answered after its node learned of the new session")
 						return
 					}
-				case "leave":
+				case "leave", "leave-and-rejoin-notice":
 					// gossip of the failed node still in flight (relayed by others) may arrive after the failure notice
 					w.DrainGossip()
 					for _, m := range w.Pending {
@@ -372,6 +372,16 @@ func TestC11Lifecycle(t *testing.T) {
 					}
 					w.Leave(1)
 					expectClose = false
+					if p.Cause == "leave-and-rejoin-notice" {
+						// the machine comes back under its node id one second later, before the survivors have purged its
+						// sessions: the membership layer reports a join; the sessions it hosted died with it all the same
+						w.Idle(time.Second)
+						for _, sv := range w.Nodes {
+							if !sv.Dead {
+								sv.Members.NotifyGossipJoin(1)
+							}
+						}
+					}
 				}
 				w.Step()
 				if p.Gossip == "queued-while-node-3-fails" {
@@ -413,7 +423,7 @@ func TestC11Lifecycle(t *testing.T) {
 					before := len(c.Received())
 					// nothing published afterwards is written to it
 					host := 1
-					if p.Cause == "leave" {
+					if strings.HasPrefix(p.Cause, "leave") {
 						host = 2
 					}
 					wit := w.NewClient("witness", host, AckAll)
